@@ -2,14 +2,15 @@
 # The server as a labelled transition system (DESIGN 3.8), publish part
 
 Transcribes, from `internal/server/server.go` of the repository under verification
-(line numbers of the tree with `repo_patches/fix-stale-diagnostics.diff` applied):
+(line numbers of the tree with `repo_patches/fix-stale-diagnostics.diff` and then
+`repo_patches/hook-server-yield.diff` applied):
 
 * `Server.DidOpen`   (l. 179-184)  `documents.Store`; `nextDocVersion`; `go publishDiagnosticsVersion`
 * `Server.DidChange` (l. 186-210)  the same, only when the document is open
 * `Server.DidClose`  (l. 217-222)  `documents.Delete`; `dropDocVersion`
 * `nextDocVersion` / `dropDocVersion` / `isCurrentDocVersion` (l. 243-265), each one critical
   section of `docVerMu`
-* `publishDiagnosticsVersion` (l. 289-332) and `publishIfCurrent` (l. 273-283): the background task
+* `publishDiagnosticsVersion` (l. 290-333) and `publishIfCurrent` (l. 273-284): the background task
 
 and, with `guarded := false`, the pinned code (commit 19aa5c3 of server.go), in which a task
 calls `client.PublishDiagnostics` unconditionally at the end of `publishDiagnostics`.
@@ -27,15 +28,15 @@ goroutine can see:
   (tasks never read `Server.documents`), and the `go` statement comes after it in program order,
   so the new task captures exactly the version stored.  Hence the whole handler is one atomic
   event as far as tasks and the client can tell.
-* `analyse i` — `getSettings`, `loader.LoadFromContent`, `resolved.Store`, `analyze` (l. 294-330).
+* `analyse i` — `getSettings`, `loader.LoadFromContent`, `resolved.Store`, `analyze` (l. 291-331).
   None of this reads or writes what the publish protocol depends on (versions, `publishMu`, the
   client), so it is one step whose result is `diag text` for an *uninterpreted* `diag`
   (DESIGN 3.9; C14/C19 refine this step, C13 does not care what the diagnostics of a text are).
-* `lock i`    — `s.publishMu.Lock()` (l. 274); enabled only when the mutex is free.
-* `check i`   — `isCurrentDocVersion` (l. 276): one critical section of `docVerMu`, reads the
+* `lock i`    — `s.publishMu.Lock()` (l. 275); enabled only when the mutex is free.
+* `check i`   — `isCurrentDocVersion` (l. 277, body l. 260-265): one critical section of `docVerMu`, reads the
   version table once.
-* `publish i` — `s.client.PublishDiagnostics` (l. 279): the client appends to its log.
-* `unlock i`  — the deferred `publishMu.Unlock()` (l. 275); the task ends.
+* `publish i` — `s.client.PublishDiagnostics` (l. 280): the client appends to its log.
+* `unlock i`  — the deferred `publishMu.Unlock()` (l. 276); the task ends.
 
 `lock`, `check`, `publish`, `unlock` are separate steps although `publishMu` is held throughout:
 handler events (which do not take `publishMu`) and other tasks' `analyse` steps can and do happen
